@@ -23,7 +23,7 @@ Ltac ex_solve :=
         | solve [vm_compute; intros; discriminate] | idtac ].
 
 (** ** filters *)
-Definition ex_f : filt := FAnd (lvl INFO) (FNot (FTargets [(Some "b"%string, Some TRACE)])).
+Definition ex_f : filt := FAnd (lvl INFO) (FNot (FTargets [(Some "b"%string, [], Some TRACE)])).
 Definition ex_f_or : filt := FOr (lvl WARN) (FEnv 1 [mkdir (Some "a"%string) None [] (Some DEBUG)]).
 
 Lemma ex_filter_nonvacuous :
@@ -33,6 +33,18 @@ Lemma ex_filter_nonvacuous :
   f_hint ex_f = None /\
   LeafOK ex_f_or /\ f_hint ex_f_or = Some (Some DEBUG) /\ above m_trace_ev (Some DEBUG) /\
   f_acc ex_f_or m_trace_ev cx0 = false /\ f_acc ex_f_or m_debug_ev cx0 = true.
+Proof. ex_solve. Qed.
+
+(** Targets parsed from "a=warn,a[{x}]=trace": the field directive is more specific and more permissive; the
+    summaries follow it exactly as [enabled] does (pool 49: DEBUG event, target a, fields x y; pool 48: the same without
+    fields; pool 51: DEBUG span `sq` - field names are not required of spans) *)
+Definition ex_targets_fields : filt :=
+  FTargets [(Some "a"%string, [], Some WARN); (Some "a"%string, ["x"%string], Some TRACE)].
+Lemma ex_targets_fields_nonvacuous :
+  LeafOK ex_targets_fields /\ f_hint ex_targets_fields = Some (Some TRACE) /\
+  f_int ex_targets_fields (pool_meta 49) = always /\ f_acc ex_targets_fields (pool_meta 49) cx0 = true /\
+  f_int ex_targets_fields (pool_meta 48) = never /\ f_acc ex_targets_fields (pool_meta 48) cx0 = false /\
+  f_int ex_targets_fields (pool_meta 51) = always /\ f_acc ex_targets_fields (pool_meta 51) cx0 = true.
 Proof. ex_solve. Qed.
 
 (** F12 (still in the tree): EnvFilter "a[sq]=debug" answers [always] for the TRACE span `sq`, and rejects it *)
